@@ -436,6 +436,9 @@ func runOnce(c ccase) (res batch.Result, stalled bool) {
 		}
 	}
 	res.Count("sequences", 1)
+	if c.Prelude == "openConfirm" && len(c.Events) == 3 && c.Events[0] == m.EvKeepalive && c.Events[1] == m.EvUpdate {
+		res.Sample = map[string]any{"sequence": c, "final": d.observe()}
+	}
 	res.Nontrivial = append(res.Nontrivial, fmt.Sprintf("%s|%v|%s|%v", c.Mode, c.EBGP, c.Prelude, c.Events))
 	return
 }
